@@ -19,6 +19,9 @@ use std::sync::{Arc, Mutex};
 pub struct Call {
     pub gap_ns: u64,
     pub tenant: usize,
+    /// server rows: > 0 = a BulkSearch stream of that many requests (every message costs one token), 0 = one unary Query
+    #[serde(default)]
+    pub stream: u32,
 }
 
 #[derive(Clone, Debug, PartialEq, Serialize, Deserialize)]
@@ -73,7 +76,7 @@ pub fn gen_plan(seed: u64, run: u64, tier: &str) -> Plan {
                 3 => *rng.pick(&[0u64, 0, 0, 100_000, 10_000_000]),
                 _ => rng.below(2 * period + 1),
             };
-            calls.push(Call { gap_ns: gap, tenant });
+            calls.push(Call { gap_ns: gap, tenant, stream: 0 });
         }
         threads.push(calls);
     }
@@ -84,6 +87,11 @@ pub fn gen_plan(seed: u64, run: u64, tier: &str) -> Plan {
     if via_server {
         for t in threads.iter_mut() {
             t.truncate(12);
+            for c in t.iter_mut() {
+                if rng.chance(1, 3) {
+                    c.stream = rng.range(2, 8) as u32;
+                }
+            }
         }
     }
     Plan { rates, global, threads, sched: SchedSpec::gen(&mut srng, 200), env_seed, via_server }
@@ -173,6 +181,24 @@ pub fn execute(plan: &Plan) -> Exec {
                     let avail_before = if single { avail(&name) } else { None };
                     let tb = simlibc::clock_now_ns();
                     let _ = sim::stamp();
+                    if let (Some(s), Some(rt), true) = (&srv, &rt, c.stream > 0) {
+                        // a BulkSearch stream: every request of the stream is charged; answered requests are admissions
+                        let spec = crate::rpc::SearchSpec { q: crate::common::bits(&[1.0, 0.0]), k: 1, min_score: 0, ns: String::new(), emb: false, ef: 0, filter: None, legacy: Default::default() };
+                        let resp = crate::rpc::call(rt, &s.0, &s.1, &crate::rpc::Cred::Tenant(c.tenant), &crate::rpc::Rpc::BulkSearch(vec![spec; c.stream as usize]));
+                        let answered = match &resp.body {
+                            crate::rpc::Body::Search(v) => v.len(),
+                            _ => 0,
+                        };
+                        let ta = simlibc::clock_now_ns();
+                        let mut hg = hist.lock().unwrap();
+                        for _ in 0..answered {
+                            hg.push(Rec { thread: t, tenant: c.tenant, tb, ta, admitted: true, avail_before: None, avail_after: None });
+                        }
+                        if resp.code == 8 {
+                            hg.push(Rec { thread: t, tenant: c.tenant, tb, ta, admitted: false, avail_before: None, avail_after: None });
+                        }
+                        continue;
+                    }
                     let admitted = match (&srv, &rt) {
                         (Some(s), Some(rt)) => {
                             let resp = crate::rpc::call(rt, &s.0, &s.1, &crate::rpc::Cred::Tenant(c.tenant), &crate::rpc::Rpc::Query { id: 1, emb: false, ns: String::new() });
@@ -236,7 +262,9 @@ pub fn execute(plan: &Plan) -> Exec {
             }
         }
         // ---- clauses 3 + 4 (single caller thread: exact attribution is possible)
-        if single {
+        // (runs with BulkSearch streams are judged by the window bounds only: a stream that is cut off has consumed
+        // tokens for requests that were never answered, which the per-call accounting below cannot attribute)
+        if single && !p.threads.iter().flatten().any(|c| c.stream > 0) {
             let eps = 1e-6;
             // reference LOWER bounds on the tokens of each bucket
             let mut lt: Vec<f64> = p.rates.iter().map(|r| *r as f64).collect();
